@@ -171,6 +171,12 @@ def proposer (vs : ValSet) : ValSet × Option Bytes :=
 /-- persistence round trip (`proposer` and `totalVotingPower` are unexported: lost) -/
 def reload (vs : ValSet) : ValSet := { vs with proposer := none, total := 0 }
 
+/-- persistence round trip of the chain STATE (state.go Save / LoadState): repaired, the proposer's
+    address is stored behind the wire bytes and put back into the cache on load; as found it is
+    the bare set round trip `reload` -/
+def reloadState (keepsProposer : Bool) (vs : ValSet) : ValSet :=
+  if keepsProposer then { vs with total := 0 } else reload vs
+
 /-! ### membership changes -/
 
 /-- `sort.Search` position: first index whose address is ≥ `a` -/
